@@ -73,12 +73,17 @@ func (c *Cache[k, v]) Delete(key k) error {
 	c.mu.Lock()
 	defer c.mu.Unlock()
 	if c.pruneFn != nil && c.entries[key] != nil {
+		e := c.entries[key]
 		v := c.entries[key].value
 		c.mu.Unlock()
 		err := c.pruneFn(key, v)
 		c.mu.Lock()
 		if err != nil {
 			return err
+		}
+		if c.entries[key] != e {
+			// entry was replaced or removed while the lock was released for the prune function
+			return nil
 		}
 	}
 	delete(c.entries, key)
@@ -99,12 +104,17 @@ func (c *Cache[k, v]) DeleteAll() error {
 	errs := make([]error, 0, len(c.entries))
 	for key := range c.entries {
 		if c.pruneFn != nil {
+			e := c.entries[key]
 			v := c.entries[key].value
 			c.mu.Unlock()
 			err := c.pruneFn(key, v)
 			c.mu.Lock()
 			if err != nil {
 				errs = append(errs, err)
+				continue
+			}
+			if c.entries[key] != e {
+				// entry was replaced or removed while the lock was released for the prune function
 				continue
 			}
 		}
